@@ -817,6 +817,14 @@ func (t *tScreen) drawCell(x, y int) int {
 	ti := t.ti
 
 	mainc, combc, style, width := t.cells.GetContent(x, y)
+	// A wide character whose right half would land on a locked cell is
+	// shown one column wide.  Decide that before the dirty check, so that
+	// the width reported to draw() -- and with it the columns draw() skips
+	// -- does not depend on whether this cell happened to need a repaint.
+	narrow := width > 1 && t.cells.locked(x+1, y)
+	if narrow {
+		width = 1
+	}
 	if !t.cells.Dirty(x, y) {
 		return width
 	}
@@ -954,7 +962,7 @@ func (t *tScreen) drawCell(x, y int) int {
 		t.cx = -1
 	}
 
-	if x > t.w-width || (width > 1 && t.cells.locked(x+1, y)) {
+	if x > t.w-width || narrow {
 		// too wide to fit, or the next column is locked and must not
 		// be painted over; emit a single space instead
 		width = 1
